@@ -79,9 +79,50 @@ def cyc_case(rng):
     return chain_case([d], env=gen.ENV, tail=("outdocs",))
 
 
+EDGE_COUNTS = [-1, -3, 0, 1, 2, -2**63, -2**31, 1.0, -1.5, "2", "", None, True, [], [2], {}, {"x": -1}, {"x": 0, "y": 2}, {"x": 2, "y": -2},
+               {"x": "a"}, {"": 1}, {"x": None}, {"x": 1.0}]
+
+
+def repeat_edge_case(rng):
+    """$repeat with edge counts (negative, zero, wrong type, empty / negative named maps) at document level,
+    on a list element and on a map value; references to the index before and after the expansion"""
+    body = {"v": rng.choice(["$repeat", "$\"{$repeat}\"", "$\"{$repeat:x}-{$repeat:y}\"", 1]), "$repeat": rng.choice(EDGE_COUNTS)}
+    where = rng.choice(["doc", "list", "map", "list-in-list", "both"])
+    if where == "doc":
+        d = dict(body, z="$\"{v}\"")
+    elif where == "list":
+        d = {"l": [0, body, "x"], "z": rng.choice([1, "$\"{l}\""])}
+    elif where == "map":
+        d = {"m": {"k": body, "j": 1}, "z": 1}
+    elif where == "list-in-list":
+        d = {"l": [[body], [dict(body)]]}
+    else:
+        d = {"$repeat": rng.choice([2, 0, -1]), "a": [dict(body)], "z": "$repeat"}
+    layers = [d]
+    if rng.random() < 0.3:
+        # an upper layer patches the count
+        layers.append({"l": [{"$match": {"v": body["v"]}, "$repeat": rng.choice(EDGE_COUNTS)}]} if where == "list" else {"zz": 1})
+    return chain_case(layers, env=gen.ENV)
+
+
+def multi_interp_case(rng):
+    """several placeholders in one string where some fail (cycle / missing) and others resolve, in every order"""
+    names = gen.KEYS[:rng.randint(2, 4)]
+    d = {}
+    for n in names:
+        refs = [rng.choice(names + ["nosuch", "$env:HOME", "$env:NOSUCH", "k"]) for _ in range(rng.randint(1, 3))]
+        d[n] = "$\"" + "".join(rng.choice(["", "-", "<"]) + "{" + r + "}" for r in refs) + "\""
+    d["k"] = rng.choice(["x", 1, "$\"{k}\"", "$merge:k"])
+    return chain_case([d], env=gen.ENV, tail=("outdocs",))
+
+
 def gen_case(rng):
     r = rng.random()
-    if r < 0.25:
+    if r < 0.08:
+        return repeat_edge_case(rng)
+    if r < 0.16:
+        return multi_interp_case(rng)
+    if r < 0.3:
         return cyc_case(rng)
     if r < 0.5:
         layers = [wild_tree(rng, rng.randint(2, 4)) for _ in range(rng.randint(1, 3))]
@@ -142,7 +183,9 @@ def sig_branching_self_reference(case):
 def library_run(rep, cases, known):
     ops = [to_op(c, i) for i, c in enumerate(cases)]
     go = run_go(ops, timeout_ms=10000, mem_mb=1500)
-    mo = {}   # the model is total by construction; only the implementation can crash
+    # the model is total by construction; only the implementation can crash.  The model is also the judge of
+    # "cycles of every kind are reported as errors": ok/err status and values are compared like in every other check.
+    mo = run_model(ops)
     bad = []
     for i, c in enumerate(cases):
         g = go.get(i)
@@ -157,6 +200,13 @@ def library_run(rep, cases, known):
                 break
         if kind:
             bad.append((c, g, mo.get(i), kind))
+        else:
+            from common import compare_hist
+            d, unm = compare_hist(g, mo.get(i))
+            if unm:
+                rep.count("unmodelled_steps", unm)
+            if d:
+                bad.append((c, g, mo.get(i), "DIFF " + d))
     return bad
 
 
@@ -227,7 +277,10 @@ def run(rep):
             continue
         if len(rep.violations) < 4:
             rep.disagreements_checked += 1
-            rep.violation(f"implementation {kind} (the model terminates with {step_summary(m)})", {"case": c, "impl": g, "model": m})
+            if kind.startswith("DIFF "):
+                rep.violation(f"result differs from the (total) model: {kind[5:]}", {"case": c, "impl": g, "model": m})
+            else:
+                rep.violation(f"implementation {kind} (the model terminates with {step_summary(m)})", {"case": c, "impl": g, "model": m})
     fcs = file_cases(rng, nf)
     res = pmap(run_file_case, fcs)
     for c, o in zip(fcs, res):
@@ -254,8 +307,15 @@ def replay(rep, payload):
     c = payload["case"]
     if "steps" in c:
         g = run_go([to_op(c, 0)], timeout_ms=10000, mem_mb=1500).get(0)
-        print(g)
-        return 1 if g is None or any(x in g for x in ("oom", "timeout", "crash", "stack_overflow", "panic")) else 0
+        m = run_model([to_op(c, 0)]).get(0)
+        print("impl :", g)
+        print("model:", m)
+        if g is None or any(x in g for x in ("oom", "timeout", "crash", "stack_overflow", "panic")):
+            return 1
+        from common import compare_hist
+        d, _ = compare_hist(g, m)
+        print("disagreement:", d)
+        return 1 if d else 0
     files = {k: (v.encode("latin1") if c.get("latin1") else v) for k, v in c["files"].items()}
     o = run_file_case({"files": files, "tool": c["tool"], "args": c["args"]})
     print(o)
